@@ -64,7 +64,8 @@ impl World for EventWorld {
         v
     }
     fn enum_configs(&self, tier: Tier) -> Vec<(Cfg, usize)> {
-        let k = if tier == Tier::Quick { 2 } else { 3 };
+        let k = 3;
+        let _ = tier;
         vec![(Cfg { flavour: FL_CHECKED, mode: 0, x: 0, y: 0, k }, 200), (Cfg { flavour: FL_CHECKED, mode: 0, x: 1, y: 0, k }, 200)]
     }
     fn specs(&self, cfg: &Cfg) -> Vec<OpSpec> {
@@ -302,13 +303,17 @@ fn monitors<M: RawMutex>(event: &GenericManualResetEvent<M>, model_set: bool, sl
     let is_set = event.is_set();
     if is_set != model_set {
         run.violate("C14", "is_set-mismatch", format!("is_set() == {} but the last set/reset call says {}", is_set, model_set));
-        return;
+        if run.failed() {
+            return;
+        }
     }
     // a latched waiter has been woken
     for (i, s) in slots.iter().enumerate() {
         if s.pending() && s.flag && !s.woken() {
             run.violate("C14", "latched-not-woken", format!("slot {} waited across a set() and holds no wake-up through its latest waker", i));
-            return;
+            if run.failed() {
+                return;
+            }
         }
     }
     for (i, s) in slots.iter().enumerate() {
@@ -319,7 +324,9 @@ fn monitors<M: RawMutex>(event: &GenericManualResetEvent<M>, model_set: bool, sl
             }
             if t != s.done {
                 run.violate("C17", "is_terminated-mismatch", format!("slot {}: is_terminated() == {} but completed == {}", i, t, s.done));
-                return;
+                if run.failed() {
+                    return;
+                }
             }
         }
     }
